@@ -314,6 +314,10 @@ def judge_case(case, impl, top, ref_inner, ref_outer, top_outer=None):
         return "agree", []
     if not d_top and d_ref:
         return "inherited", d_ref
+    if d_top and not d_ref:
+        # subquery equals the exact semantics, so it is TOP LEVEL that deviates from the semantics (a C01 finding, e.g. a
+        # NegativeCycle false alarm hit by the joint top-level program before the inconsistent evidence is noticed)
+        return "toplevel-deviates", d_top
     return "violation", d_top + ["(vs semantics: %s)" % ("; ".join(d_ref) or "agrees")]
 
 
@@ -647,24 +651,28 @@ def eval_history(h):
         from problog.program import PrologString
         from problog.engine import DefaultEngine
         from problog.logic import Term
-        eng = DefaultEngine()
+        box = {"eng": DefaultEngine()}
         text0 = "".join(gp.stmt_text(c) + "\n" for c in h["base"]) + hist_wrappers_text(h)
-        db = eng.prepare(PrologString(text0))
+        db = box["eng"].prepare(PrologString(text0))
         goals = h["goals"]
-        q2 = [Term.from_string("sqw%d(%s)" % (i, ",".join(["_"] * (len(goal_vars(g)) + 1)))) for i, g in enumerate(goals)]
-        q3 = [Term.from_string("sqv%d(%s)" % (i, ",".join(["_"] * (len(goal_vars(g)) + 1)))) for i, g in enumerate(goals)]
+        q2 = [Term("sqw%d" % i, *([None] * (len(goal_vars(g)) + 1))) for i, g in enumerate(goals)]
+        q3 = [Term("sqv%d" % i, *([None] * (len(goal_vars(g)) + 1))) for i, g in enumerate(goals)]
         qg = [Term.from_string(gp.atom_text(g)) for g in goals]
         evid = [(Term.from_string(gp.atom_text(a)), bool(v)) for a, v in h["ev"]]
 
         def run(database, queries, evidence, conv):
             try:
-                lf = eng.ground_all(database, queries=queries, evidence=evidence)
+                lf = box["eng"].ground_all(database, queries=queries, evidence=evidence)
                 return ("ok", conv(get_evaluatable().create_from(lf).evaluate()))
             except _CpuTimeout:
                 raise
             except BaseException as e:  # noqa
                 if isinstance(e, (KeyboardInterrupt, SystemExit)):
                     raise
+                # an exception that leaves a builtin (e.g. InconsistentEvidence out of subquery/3) leaves the engine OBJECT with a
+                # non-empty stack: every later call on it raises InvalidEngineState (clean tree; not about subquery, see notes).
+                # Continue the history with a new engine on the SAME database object.
+                box["eng"] = DefaultEngine()
                 return ("err", pl.err_class(e))
 
         def plain(res):
@@ -707,7 +715,10 @@ def judge_history(h, out, refs):
             if key in first and not same_obs(first[key], o):
                 d_top.append("a repeated identical call gave different answers: %r then %r" % (first[key], o))
             first.setdefault(key, o)
-            if d_top:
+            if d_top and not d_ref:
+                if worst == "agree":
+                    worst = "toplevel-deviates"
+            elif d_top:
                 worst = "violation"
                 details.append("[%s, %s] %s" % (label, kind, "; ".join(d_top)))
             elif d_ref and worst != "violation":
@@ -791,7 +802,10 @@ def judge_assert(h, out, refs):
             return bad
         d_top = diff(want_top, "top-level ProbLog")
         d_ref = diff(want_ref, "the semantics")
-        if d_top:
+        if d_top and not d_ref:
+            if worst == "agree":
+                worst = "toplevel-deviates"
+        elif d_top:
             worst = "violation"
             details.append("[%s] %s" % (kind, "; ".join(d_top)))
         elif d_ref and worst != "violation":
@@ -847,7 +861,7 @@ def run_histories(ctx):
                 nrep += 1
                 what = ("subquery on a database modified in place (%s) differs from top-level inference on the current contents: %s | %s"
                         % (fam, "; ".join(details)[:700], hist_describe(h) if fam == "python-api" else assert_text(h).replace("\n", " ")))
-                ctx.violation(what, {"family": fam, "history": hist_json(h), "observed": outs_h[k] if fam == "python-api" else outs_a[k],
+                ctx.violation(what, {"family": fam, "history": hist_json(h), "observed": repr(outs_h[k] if fam == "python-api" else outs_a[k]),
                                      "program": assert_text(h) if fam == "library-assert" else None}, klass=None)
 
 
@@ -970,6 +984,8 @@ def run(ctx):
             ctx.broken.append("oracle:%s on %s" % (details, prog.text().replace("\n", " ")[:200]))
         elif verdict == "inherited":
             ctx.count("toplevel-itself-deviates-from-semantics(C01 finding, subquery follows top level)")
+        elif verdict == "toplevel-deviates":
+            ctx.count("toplevel-itself-deviates-from-semantics(C01 finding, subquery agrees with the semantics)")
         elif verdict == "violation":
             report(ctx, case, verdict, details, impl, top, ri, state)
         # model tie on small instances: Sem.prob_gen enumerates every ground AD instance
